@@ -194,8 +194,10 @@ async fn _validate_cas_object_from_async_read<R: AsyncRead + Unpin>(
         return Err(CasObjectError::FormatError(anyhow!("xorb computed hash does not match provided hash")));
     }
 
-    let cas_object = maybe_cas_object
-        .unwrap_or_else(|| create_cas_object_from_parts(hash, compressed_chunk_boundary_offsets, chunk_hash_and_size));
+    let cas_object = match maybe_cas_object {
+        Some(cas_object) => cas_object,
+        None => create_cas_object_from_parts(hash, compressed_chunk_boundary_offsets, chunk_hash_and_size)?,
+    };
 
     Ok((cas_object, go_back_bytes))
 }
@@ -204,8 +206,8 @@ fn create_cas_object_from_parts(
     hash: &MerkleHash,
     compressed_chunk_boundary_offsets: Vec<u32>,
     chunk_hash_and_size: Vec<Chunk>,
-) -> CasObject {
-    let mut unpacked_offset = 0;
+) -> Result<CasObject> {
+    let mut unpacked_offset: u32 = 0;
 
     let mut cas_info = CasObjectInfoV1::default();
     cas_info.cashash = *hash;
@@ -214,17 +216,23 @@ fn create_cas_object_from_parts(
     cas_info.unpacked_chunk_offsets = chunk_hash_and_size
         .iter()
         .map(|chunk| {
-            unpacked_offset += chunk.length;
-            unpacked_offset as u32
+            // the footer stores unpacked offsets as u32; reject instead of wrapping
+            unpacked_offset = u32::try_from(chunk.length)
+                .ok()
+                .and_then(|len| unpacked_offset.checked_add(len))
+                .ok_or_else(|| {
+                    CasObjectError::FormatError(anyhow!("unpacked chunk offsets exceed the 32-bit range of the xorb format"))
+                })?;
+            Ok(unpacked_offset)
         })
-        .collect();
+        .collect::<Result<Vec<u32>>>()?;
     cas_info.num_chunks = chunk_hash_and_size.len() as u32;
     cas_info.fill_in_boundary_offsets();
 
-    CasObject {
+    Ok(CasObject {
         info: cas_info,
         info_length: 0,
-    }
+    })
 }
 
 #[cfg(test)]
